@@ -43,6 +43,68 @@ def load_known():
     return json.load(open(p))
 
 
+def thorough_extras(pid, rules, results, errors):
+    """(1) every single-edit variant registered for this property (variants/variants.py) and every
+    archived seeded change whose meta names this property is applied to a scratch copy of the
+    current tree; the property's rules must report it (a variant that no longer applies/compiles
+    is skipped and counted).  (2) the facts are rebuilt with debug assertions off and the rule
+    verdicts must be identical (no cfg(debug_assertions) code hides a site)."""
+    import glob, subprocess
+    sys.path.insert(0, os.path.join(VERIF, "tools"))
+    sys.path.insert(0, os.path.join(VERIF, "variants"))
+    import selftest_variants as SV, variants as VV, try_patch as TP
+    from concurrent.futures import ThreadPoolExecutor
+    vs = [v for v in VV.V if v["prop"] == pid]
+    with ThreadPoolExecutor(max_workers=8) as ex:
+        vres = list(ex.map(SV.run_variant, vs))
+    out = {"variants": [], "seeded": [], "second_build": None}
+    for v, (st, why) in zip(vs, vres):
+        out["variants"].append(dict(variant=v["name"], rule=v["rule"], status=st, detail=why[:200]))
+        if st == "MISSED":
+            errors.append("self-test: variant %s (rule %s) was NOT reported: %s" % (v["name"], v["rule"], why[:200]))
+    for d in sorted(glob.glob(os.path.join(VERIF, "seeded", "*"))):
+        try:
+            meta = json.load(open(os.path.join(d, "meta.json")))
+        except Exception:
+            continue
+        if meta.get("property") != pid:
+            continue
+        p = subprocess.run(["python3", os.path.join(VERIF, "tools", "try_patch.py"), os.path.join(d, "patch.diff")],
+                           stdout=subprocess.PIPE, stderr=subprocess.STDOUT, text=True).stdout
+        fl = [l for l in p.splitlines() if l.startswith("FLAGGED:")]
+        flagged = fl[0].split()[1:] if fl else []
+        if "PATCH DOES NOT APPLY" in p or "DOES NOT BUILD" in p:
+            st = "SKIPPED"
+        elif pid in flagged:
+            st = "DETECTED"
+        elif meta.get("expected_miss"):
+            st = "EXPECTED-MISS"
+        else:
+            st = "MISSED"
+            errors.append("self-test: seeded change %s is no longer reported under %s" % (os.path.basename(d), pid))
+        out["seeded"].append(dict(seed=os.path.basename(d), status=st))
+    try:
+        fx2 = FACTS.build_facts(REPO, extra_rustflags="-C debug-assertions=off")
+        P2 = Program(fx2); E2 = Effects(P2); H2 = Handlers(P2, E2)
+        ctx2 = registry.Ctx(P2, E2, H2)
+        v1 = sorted((rid,) + v.key for (rid, r, _) in results for v in r.violations)
+        v2 = []
+        for (rid, fn, floor) in rules:
+            r2 = fn(ctx2)
+            v2 += [(rid,) + v.key for v in r2.violations]
+        same = v1 == sorted(v2)
+        out["second_build"] = dict(flags="-C debug-assertions=off", bodies=len(P2.bodies), same_verdicts=same)
+        if not same:
+            errors.append("second build configuration (-C debug-assertions=off) gives different verdicts")
+    except FACTS.FactsError as e:
+        errors.append("second build configuration failed: %s" % e)
+    nd = sum(1 for x in out["variants"] if x["status"] == "DETECTED")
+    print("thorough self-test: %d/%d variants detected (%d skipped), seeded %s, second build %s"
+          % (nd, len(vs), sum(1 for x in out["variants"] if x["status"] == "SKIPPED"),
+             [(x["seed"], x["status"]) for x in out["seeded"]], out["second_build"]))
+    return out
+
+
 def main(argv):
     t0 = time.time()
     if len(argv) < 2:
@@ -95,6 +157,11 @@ def main(argv):
             errors.append("%s: examined %d instances, floor is %d (ANCHOR-MISSING / vacuous pass refused)"
                           % (rid, r.examined, floor))
 
+    # ---- thorough tier: checker self-test for this property + second build configuration
+    selftest = None
+    if tier == "thorough" and not facts_path:
+        selftest = thorough_extras(pid, rules, results, errors)
+
     known = [k for k in load_known() if k.get("property") == pid]
     known_keys = {tuple(k["key"]): k for k in known if k.get("status") == "known"}
     violations, known_hit = [], []
@@ -141,6 +208,7 @@ def main(argv):
                              features=fx.get("features", []), facts_build_s=round(fx.get("_build_s", 0), 2)),
             "out_of_scope": ["feature web (does not build offline)", "cfg(test) code"],
             "known_findings_observed": [" | ".join(k) for (k, _, _) in known_hit],
+            "thorough_selftest": selftest,
             "fail_closed_errors": errors,
             "exhaustive": True,
         },
